@@ -151,6 +151,10 @@ pub struct InnerState {
     /// indices of inner calls that panic synchronously inside `call()` (before any future
     /// exists); such a call is logged as started and panicked at once
     pub sync_panic_calls: Vec<usize>,
+    /// an inner call that never waits: while its result is not there yet every poll does ready
+    /// tokio operations until the task's cooperative budget is used up (as a future draining
+    /// a channel that always has another item does), and only then returns Pending
+    pub busy: bool,
 }
 
 pub struct HeldReady {
@@ -233,6 +237,7 @@ pub fn new_shared(origin: tokio::time::Instant, mode: Mode) -> Shared {
         hold_late_ready: false,
         held: Vec::new(),
         sync_panic_calls: Vec::new(),
+        busy: false,
     }))
 }
 
@@ -409,6 +414,16 @@ impl Future for GatedFuture {
         match g.calls[k].gate {
             None => {
                 g.calls[k].waker = Some(cx.waker().clone());
+                if g.busy {
+                    drop(g);
+                    // (bounded: a poll from outside any task has no budget to use up)
+                    for _ in 0..256 {
+                        match tokio::task::coop::poll_proceed(cx) {
+                            Poll::Ready(step) => step.made_progress(),
+                            Poll::Pending => break,
+                        }
+                    }
+                }
                 Poll::Pending
             }
             Some(out) => {
